@@ -221,6 +221,9 @@ func (s Spec) String() string {
 			x += "echo+"
 		}
 		if s.FbE != nil {
+			if s.FbV != 0 {
+				x += strconv.Itoa(s.FbV) + "+"
+			}
 			x += s.FbE.Error()
 		} else {
 			x += strconv.Itoa(s.FbV)
@@ -329,6 +332,8 @@ type Inv struct {
 	Returned                              bool
 	Exec                                  failsafe.Execution[int]
 	ExecutionsAtExit                      int
+	LastVExit                             int // LastResult / LastError read again just before the function returns
+	LastEExit                             error
 }
 
 // Env is the state of one program run: policy instances and the observations.
@@ -758,16 +763,17 @@ func (env *Env) Executor(ctx context.Context) failsafe.Executor[int] {
 
 // Exe is one execution through the env's policies and what was observed of it.
 type Exe struct {
-	Env       *Env
-	ID        int
-	Script    []Out
-	Invs      []*Inv
-	Completed bool
-	ResV      int
-	ResE      error
-	DoneAt    int64
-	StartedAt int64
-	StartTick int
+	Env         *Env
+	ID          int
+	Script      []Out
+	Invs        []*Inv
+	Completed   bool
+	ResV        int
+	ResE        error
+	DoneAt      int64
+	AsyncCancel bool // cancelled through ExecutionResult.Cancel
+	StartedAt   int64
+	StartTick   int
 	// cancellation by the harness: ticks just before / after the cancel call, and its virtual instant
 	CancelTick0, CancelTick1 int
 	CancelTime               int64
@@ -846,6 +852,7 @@ func (x *Exe) Fn(exec failsafe.Execution[int]) (int, error) {
 	if !env.Quiet {
 		inv.CanceledAtEnd = exec.IsCanceled()
 		inv.ExecutionsAtExit = exec.Executions()
+		inv.LastVExit, inv.LastEExit = exec.LastResult(), exec.LastError()
 	}
 	env.obs()
 	x.exit(inv)
